@@ -91,6 +91,23 @@ func runVerify(pk, msg, sig []byte) string {
 		if !bytes.Equal(m, msg) || !bytes.Equal(s, sig) {
 			return "inputs modified"
 		}
+		// history on the one key object: verification is a pure function of (key, message, signature), so a second
+		// and third call answer the same, and the key still exposes its x-coordinate and the even-y point
+		for n := 2; n <= 3; n++ {
+			var again bool
+			if pn := lib.Try(func() { again = k.Verify(m, s) }); pn != "" {
+				return "Verify panic: " + pn
+			}
+			if again != want {
+				return fmt.Sprintf("Verify call #%d on the same key object (constructor %d) = %v, BIP-340 Verify = %v: the answer depends on the key object's history", n, i, again, want)
+			}
+		}
+		if !bytes.Equal(k.Bytes(), pk) {
+			return "key bytes changed by verification"
+		}
+		if mm := lib.CheckPointLight(k.Point(), p); mm != "" {
+			return "after verification the key no longer exposes the even-y point: " + mm
+		}
 	}
 	return ""
 }
